@@ -16,7 +16,7 @@ from harness import common, tlc, runner
 
 PRODUCTS = {
     'OpenSSH': ('SSH-2.0-OpenSSH_%s', [('none', 0), ('p', 1), ('p', 2)]),
-    'Dropbear': ('SSH-2.0-dropbear_%s', [('none', 0), ('test', 1)]),
+    'Dropbear SSH': ('SSH-2.0-dropbear_%s', [('none', 0), ('test', 1)]),
     'libssh': ('SSH-2.0-libssh-%s', [('none', 0)]),
 }
 QUICK_COMPS = [0, 1, 2, 9, 10, 11, 100]
